@@ -124,6 +124,13 @@ func run(e *core.Env) {
 	if tp.Chance(1, 3) && lineLen >= 2 {
 		edges = append(edges, [2]int{yi, 0}) // a second path to the far end
 	}
+	if tp.Chance(1, 3) && lineLen >= 3 {
+		// a chord two routers before V's peer: that router's announcements reach P twice,
+		// directly and over one relay - two different announcements of one origin, issued in
+		// one loop, of which P forwards both
+		edges = append(edges, [2]int{pi - 2, pi})
+		e.Probe("topology_with_chord_before_peer")
+	}
 	ms := mesh.Build(e, mesh.Options{MinNodes: n, MaxNodes: n, Edges: edges, TwoByteLabels: true, BigInfo: true})
 	V, Y, P := ms.Nodes[vi], ms.Nodes[yi], ms.Nodes[pi]
 	parser := frame.NewFrameBuilder()
@@ -172,6 +179,7 @@ func run(e *core.Env) {
 	// Hold back announcements on P->V; deliver everything else honestly.
 	var captured [][]byte
 	var foreignChains [][]layer // chains of other announcements, for splicing
+	var foreignCtx [][]byte     // ... and the signing context each of them belongs to
 	pump := func(d time.Duration) {
 		end := time.Now().Add(d)
 		for guard := 0; guard < 40000; guard++ {
@@ -211,6 +219,7 @@ func run(e *core.Env) {
 		if f, err := mesh.ParseCrossing(parser, c); err == nil {
 			if ls, ok := parseChain(f.AppendixData()); ok && len(ls) > 0 {
 				foreignChains = append(foreignChains, ls)
+				foreignCtx = append(foreignCtx, signingContext(f))
 			}
 			f.ReturnToPool()
 		}
@@ -263,7 +272,26 @@ func run(e *core.Env) {
 		// ---- manipulations (all must be rejected) ----
 		k := 3 + tp.Intn(6)
 		for t := 0; t < k; t++ {
-			switch tp.Intn(12) {
+			switch tp.Intn(13) {
+			case 12: // the complete, untouched hop-record chain of ANOTHER announcement of the same origin
+				var donors [][]byte
+				for cj, oc := range captured {
+					if cj == ci {
+						continue
+					}
+					if of, err := mesh.ParseCrossing(parser, oc); err == nil {
+						if of.SrcIP() == origin && len(of.AppendixData()) > 0 && !bytes.Equal(of.AppendixData(), apx) &&
+							!bytes.Equal(of.AuthData(), orig[msgStart+msgLen:msgStart+msgLen+64]) {
+							donors = append(donors, append([]byte(nil), of.AppendixData()...))
+						}
+						of.ReturnToPool()
+					}
+				}
+				if len(donors) == 0 {
+					continue
+				}
+				e.Probe("transplant_between_announcements_of_one_origin")
+				reject("transplant chain of another announcement of the same origin", lPV, withAppendix(parser, orig, donors[tp.Intn(len(donors))]), depth)
 			case 11: // a record that names a router V already knows, but carries the delivering peer's key and signature
 				if depth < 2 {
 					continue
@@ -330,8 +358,14 @@ func run(e *core.Env) {
 				if depth == 0 || len(foreignChains) < 2 {
 					continue
 				}
-				other := foreignChains[tp.Intn(len(foreignChains))]
+				oi := tp.Intn(len(foreignChains))
+				other := foreignChains[oi]
 				if len(other) > 0 && bytes.Equal(other[0].raw, ls[0].raw) {
+					continue
+				}
+				// Records of the SAME announcement that reached P over another path are
+				// records "for this very announcement": combining them is not a splice.
+				if bytes.Equal(foreignCtx[oi], ctx) {
 					continue
 				}
 				j := tp.Intn(depth)
